@@ -29,11 +29,13 @@ TRUSTED_BASE = [
     "Lean 4.33.0 kernel (axioms allowed: propext, Classical.choice, Quot.sound; no native_decide, no bv_decide, no own axioms)",
     "Rawr/Spec/*.lean as the reading of the rules of chess / Chess960 / X-FEN",
     "tools/extract.py (constants and tables translated from /repo on every run)",
-    "tools/rust2lean.py, rust2lean_imp.py, rust2lean_search.py (Rust function bodies translated to Lean on every run; the agree_* theorems prove the "
-    "model equal to the translation: bitboard/ray helpers, position, makemove, hashes, validate, attacks, eval, move generator, counter, perft, "
-    "hashtable, score, ordering, qsearch, negamax, root incl. the clock arithmetic)",
-    "hand-written Rawr/Model/*.lean; the parts not reached by the translators (magic look-up, FEN text, UCI loop and move text, style.py) are tied to "
-    "the code only by the correspondence check of this run",
+    "tools/rust2lean.py, rust2lean_imp.py, rust2lean_search.py, rust2lean_text.py, rust2lean_session.py, py2lean_style.py (function bodies translated "
+    "to Lean on every run; the agree_* theorems prove the model equal to the translation: bitboard/ray helpers, position, makemove, hashes, validate, "
+    "attacks, eval, move generator, counter, perft, hashtable, score, ordering, qsearch, negamax, root incl. the clock arithmetic, get_fen, set_fen, "
+    "move text, uci::moves/position/setoption/go, the listen loops, Display, style.py's statistics and scores); their library mappings "
+    "(RustTextPrelude, RustSessionPrelude, CHESS_MAP) are trusted",
+    "hand-written Rawr/Model/*.lean; what the translators do not reach (magic look-up through extract.py's table, main.rs, PGN reading glue of style.py) "
+    "is tied to the code only by the correspondence check of this run",
     "harness/src/bin/hx.rs, tools/check machinery, rustc/std semantics",
 ]
 
@@ -188,6 +190,7 @@ _SRCH = ["Rawr.Proofs.RustSearchAgree", "Rawr.Proofs.RustSearchAgree_Sort", "Raw
          "Rawr.Proofs.RustSearchAgree_Valid", "Rawr.Proofs.RustSearchAgree_Negamax", "Rawr.Proofs.RustSearchAgree_Root",
          "Rawr.Proofs.RustSearchAgree_Rules"]
 _TXT = "Rawr.Proofs.RustTextAgree"
+_SESS = ["Rawr.Proofs.RustSessionAgree_" + x for x in ("Canon", "Words", "Display", "Info", "Perft", "Go", "Lines", "Step", "Listen", "Rules", "GoRules")]
 EXTRA_MODULES = {
     "C01": ["Rawr.Proofs.RustFnsAgree"] + _IMP + ["Rawr.Props.SpecSanity"],
     "C02": _IMP,
@@ -196,7 +199,7 @@ EXTRA_MODULES = {
     "C06": ["Rawr.Proofs.RustImpAgree", _TXT, _TXT + "_GetFen", _TXT + "_SetFen", _TXT + "_Rules"],
     "C07": ["Rawr.Proofs.RustImpAgree", _TXT, _TXT + "_SetFen"],
     "C09": [_TXT, _TXT + "_SetFen", _TXT + "_Uci", _TXT + "_Rules"],
-    "C15": [_TXT, _TXT + "_Go", _TXT + "_SetFen", _TXT + "_Uci"],
+    "C15": [_TXT, _TXT + "_Go", _TXT + "_SetFen", _TXT + "_Uci"] + _SESS,
     "C08": ["Rawr.Proofs.RustFnsAgree"] + _IMP + ["Rawr.Proofs.RustSearchAgree", _TXT + "_Go", "Rawr.Props.SpecSanity"],
     "C10": ["Rawr.Proofs.RustFnsAgree"],
     "C14": ["Rawr.Proofs.RustFnsAgree"] + _SRCH,
@@ -204,7 +207,7 @@ EXTRA_MODULES = {
     "C11": _SRCH,
     "C12": _SRCH,
     "C13": _SRCH,
-    "C16": ["Rawr.Proofs.RustSearchAgree", _TXT, _TXT + "_Go", _TXT + "_SetFen", _TXT + "_Uci"],
+    "C16": ["Rawr.Proofs.RustSearchAgree", _TXT, _TXT + "_Go", _TXT + "_SetFen", _TXT + "_Uci"] + _SESS,
     "C17": ["Rawr.Proofs.RustFnsAgree", "Rawr.Proofs.RustImpAgree"],
     "C18": ["Rawr.Proofs.RustSearchAgree"],
     "C20": ["Rawr.Proofs.PyStyleAgree", "Rawr.Proofs.PyStyleAgree_Game"],
@@ -218,12 +221,16 @@ def run_rust2lean():
     rc3, out3 = sh([sys.executable, os.path.join(VERIF, "tools", "rust2lean_search.py")])
     rc4, out4 = sh([sys.executable, os.path.join(VERIF, "tools", "rust2lean_text.py")])
     rc5, out5 = sh([sys.executable, os.path.join(VERIF, "tools", "py2lean_style.py")])
+    rc6, out6 = sh([sys.executable, os.path.join(VERIF, "tools", "rust2lean_session.py")])
     global TRANSLATORS
     TRANSLATORS = {"RustFnsAgree": (rc == 0, out.strip()), "RustImpAgree": (rc2 == 0, out2.strip()),
                    "RustSearchAgree": (rc3 == 0 and rc2 == 0, (out3.strip() if rc3 else out2.strip())),
                    "RustTextAgree": (rc4 == 0 and rc2 == 0, (out4.strip() if rc4 else out2.strip())),
-                   "PyStyleAgree": (rc5 == 0, out5.strip())}
-    return rc == 0 and rc2 == 0 and rc3 == 0 and rc4 == 0 and rc5 == 0, " | ".join(x.strip() for x in (out, out2, out3, out4, out5))
+                   "PyStyleAgree": (rc5 == 0, out5.strip()),
+                   "RustSessionAgree": (rc6 == 0 and rc2 == 0 and rc3 == 0 and rc4 == 0,
+                                        next((o.strip() for r, o in ((rc6, out6), (rc4, out4), (rc3, out3), (rc2, out2)) if r), ""))}
+    return (rc == 0 and rc2 == 0 and rc3 == 0 and rc4 == 0 and rc5 == 0 and rc6 == 0,
+            " | ".join(x.strip().splitlines()[0] if x.strip() else "" for x in (out, out2, out3, out4, out5, out6)))
 
 
 TRANSLATORS = {}
